@@ -278,6 +278,65 @@ def slot_obligations(run, label, W, meta0, ass):
   return out
 
 
+def _dim_components(text):
+  import ast
+
+  try:
+    n = ast.parse(text.strip(), mode="eval").body
+  except SyntaxError:
+    return None
+  if isinstance(n, (ast.Tuple, ast.List)):
+    return [ast.unparse(e).replace(" ", "") for e in n.elts]
+  return [ast.unparse(n).replace(" ", "")]
+
+
+# extent of a spec dimension in host text, for the leading dimensions whose full coverage matters to
+# other worlds: the world axis and the world-shared slot buffers
+_EXTENT_TEXT = {"nworld": {"d.nworld"}, "naconmax": {"d.naconmax"}}
+
+
+def cover_obligations(run, label):
+  """COVER: a kernel that addresses the world axis or a world-shared slot buffer DIRECTLY by a thread-id
+  component serves exactly the worlds / slots its launch extent spans. At every launch site the extent of
+  that component must be the full extent (d.nworld / d.naconmax): a shorter launch silently skips the
+  slots (worlds) at the end of the buffer -- which slots those are depends on what the other worlds of
+  the batch allocated --, a longer one runs past the arrays."""
+  from . import launchsites
+
+  ex = run.ex
+  key = run.key
+  want = {}  # tid position -> (spec dim, example formal, lineno)
+  for fname, a in formal_accesses(run):
+    cls = census.classify_formal(fname)
+    if cls is None or not a.idx or not cls[2]:
+      continue
+    lead = cls[2][0]
+    if lead not in _EXTENT_TEXT:
+      continue
+    if cls[0] not in ("Data", "Constraint", "Contact"):
+      continue
+    i0 = lift(a.idx[0])
+    for k, t in enumerate(ex.tids):
+      if i0.eq(t):
+        want.setdefault(k, (lead, fname, a.lineno))
+  out = []
+  if not want:
+    return out
+  sites = launchsites.sites_of_kernel(key)
+  meta0 = {"function": key, "source_hash": run.info.source_hash, "specialisation": label}
+  for k, (lead, fname, lineno) in sorted(want.items()):
+    for s in sites:
+      comps = _dim_components(s.dim)
+      oid = f"{key}[{label}]#COVER.tid{k}@{s.host.split(':')[-1]}:{s.lineno}"
+      m = dict(meta0, goal=f"launch extent of thread-id component {k} (indexes {fname}, leading dimension {lead}) is {sorted(_EXTENT_TEXT[lead])[0]}", launch_dim=s.dim, site=f"{s.host}:{s.lineno}")
+      if comps is None or k >= len(comps):
+        out.append(Result(oid=oid, status="violated", kind="COVER", func=key, backend="launch-site analysis", meta=dict(m, note="launch dim has fewer components than wp.tid()")))
+        continue
+      ok = comps[k] in _EXTENT_TEXT[lead]
+      out.append(Result(oid=oid, status="discharged" if ok else "violated", kind="COVER", func=key, backend="launch-site analysis", meta=m))
+  return out
+
+
 COUNTER_CAP = {"nefc": "njmax_in", "nacon": "naconmax_in", "ncollision": "naconmax_in", "efc_nnz": "njmax_nnz_in", "ncon": "naconmax_in"}
 
 
@@ -420,6 +479,8 @@ def kernel_group(key, which, dedupe_label=True):
         out.extend(world_obligations(run, label, which))
       if "CAPACITY" in which:
         out.extend(capacity_obligations(run, label))
+      if "COVER" in which:
+        out.extend(cover_obligations(run, label))
     return out
 
   return gen
